@@ -312,7 +312,22 @@ def exec_advance(case):
     vbw, vbh = (100 * w / h, 100) if w >= h else (100, 100 * h / w)
     svg = (f'<svg xmlns="http://www.w3.org/2000/svg" viewBox="0 0 {vbw:g} {vbh:g}"><defs/><path d="M10,10 L60,10 L60,60 L10,60 Z" fill="red"/></svg>')
     over = {"upem": upem, "ascender": asc, "descender": desc, "width": case["width"], "color_format": case["fmt"], "output_file": "x.ttf"}
-    cfg, font, data = inproc.build_direct([((0xE000,), svg)], over)
+    if case["fmt"] in ("cbdt", "sbix"):
+        # bitmap formats take the aspect from the PNG's pixel size
+        from nanoemoji.png import PNG
+        from vmc.gen import pngs
+
+        hp = 32 if w >= h else 32 * h // w
+        wp = 32 * w // h if w >= h else 32
+        vbw, vbh = wp, hp
+        over["bitmap_resolution"] = hp
+        try:
+            cfg, font, data = inproc.build_direct([((0xE000,), None)], over, bitmaps=[PNG(pngs.png(wp, hp, 0))])
+        except Exception as e:
+            # 8-bit CBDT metrics / int16 font metrics cannot hold every combination: an error, not a wrong advance
+            return [{"status": "rejected", "clause": "C04.advance", "fp": f"rejected:{case['fmt']}:{type(e).__name__}"}]
+    else:
+        cfg, font, data = inproc.build_direct([((0xE000,), svg)], over)
     name = font.getBestCmap()[0xE000]
     em = asc - desc
     exact = em * vbw / vbh
@@ -354,12 +369,12 @@ def run(report, tier, only=None):
         report.extra["font_level_sets"] = len(cases)
     if only in (None, "advance"):
         cases = [{"kind": "advance", "aspect": a, "width": w, "metrics": m, "fmt": f}
-                 for a in ASPECTS for w in WIDTHS for m in METRICS for f in ("glyf_colr_1", "picosvg", "glyf")]
+                 for a in ASPECTS for w in WIDTHS for m in METRICS for f in ("glyf_colr_1", "picosvg", "glyf", "cbdt", "sbix", "untouchedsvg")]
         listing.run(report, cases, execute, timeout=120)
     report.rule = (
         "(a) every codepoint sequence of length <=4 over a 13-value alphabet plus chains of length 5..14: glyph_name injective and legal, "
         "file-name round trip; (b) every pair (and triple) of a 20-sequence universe (prefixes, shared members, ZWJ/VS16, singleton inside "
         "sequences, >63-char name, the g-prefix pair) x formats x keep_glyph_names built through PIPE, shaped with O-SHAPE, artwork identified "
-        "by colour and position; (c) full product aspect x width x metrics x 3 formats for the advance rule; distinct = outcome class"
+        "by colour and position; (c) full product aspect x width x metrics x 6 formats (vector, OT-SVG, cbdt and sbix from PNGs of that aspect) for the advance rule; distinct = outcome class"
     )
     report.assumptions += ["PIPE is bound to the real CLI by byte-identity on the conformance builds run at the start of this check"]
